@@ -57,7 +57,11 @@ type Rec struct {
 	// OnEnter/OnExit are called around every handler invocation (C05).
 	OnEnter func(d Delivery)
 	OnExit  func(d Delivery)
-	Created int
+	// OnAccept is called, serialised with the hand-over itself, for every
+	// message the overlay hands to the instance (C05 acceptance order).
+	OnAccept func(msg *onet.ProtocolMsg)
+	accMu    sync.Mutex
+	Created  int
 }
 
 var (
@@ -91,6 +95,21 @@ type proto struct {
 }
 
 func (p *proto) Start() error    { return nil }
+
+// ProcessProtocolMsg is what the overlay calls to hand a message over. The
+// wrapper only records the order of hand-overs; holding accMu around the real
+// call makes the recorded order the acceptance order.
+func (p *proto) ProcessProtocolMsg(msg *onet.ProtocolMsg) {
+	if p.rec.OnAccept == nil {
+		p.TreeNodeInstance.ProcessProtocolMsg(msg)
+		return
+	}
+	p.rec.accMu.Lock()
+	p.rec.OnAccept(msg)
+	p.TreeNodeInstance.ProcessProtocolMsg(msg)
+	p.rec.accMu.Unlock()
+}
+
 func (p *proto) Dispatch() error { return nil }
 
 func (p *proto) add(d Delivery) {
